@@ -896,7 +896,7 @@ func withoutTree(ts []string) []string {
 
 // mutateConf derives a neighbouring configuration: what an operator does between two published configurations.
 // Returns the new node list and the name of the step.
-func mutateConf(r *vlib.Rand, ns []nodeDesc, newId func() string) ([]nodeDesc, string) {
+func mutateConf(r *vlib.Rand, ns []nodeDesc, newId func() string, preferSwap bool) ([]nodeDesc, string) {
 	ns = cloneNodes(ns)
 	var trees, others []int
 	for i, n := range ns {
@@ -938,7 +938,11 @@ func mutateConf(r *vlib.Rand, ns []nodeDesc, newId func() string) ([]nodeDesc, s
 		}
 	}
 	how := ""
-	switch op := r.Intn(16); {
+	op0 := r.Intn(16)
+	if preferSwap {
+		op0 = 0
+	}
+	switch op := op0; {
 	case op < 6 && len(trees) > 0 && len(others) > 0: // role swap: a known non-sync peer takes over from a sync node
 		t, o := trees[r.Intn(len(trees))], others[r.Intn(len(others))]
 		promote(o)
@@ -1023,7 +1027,8 @@ func withHistories(r *vlib.Rand, d confDesc) confDesc {
 	chain := make([]confVer, k) // chain[k-1] is the direct predecessor of the tested configuration
 	cur := d.Nodes
 	for i := k - 1; i >= 0; i-- {
-		ns, how := mutateConf(r, cur, newId)
+		// the step that leads to the tested configuration is a role swap in half of the cases (when one is possible)
+		ns, how := mutateConf(r, cur, newId, i == k-1 && r.Bool())
 		chain[i] = confVer{Id: fmt.Sprintf("verif-h%d", i), Nodes: ns, How: how}
 		cur = ns
 	}
